@@ -435,6 +435,18 @@ fn process_group<const P: usize>(
         let p = env.run(g.configure_dc_sync(md, conf));
         let frames = env.capture_take();
         gj.insert("ref_time_at_config".into(), first_read_of_system_time(&frames));
+        // every configured-address write of the set-up: [station, register]
+        gj.insert(
+            "dc_config_writes".into(),
+            Value::Array(
+                frames
+                    .iter()
+                    .flat_map(|f| parse_datagrams(&f.request))
+                    .filter(|d| d.cmd == cmd::FPWR)
+                    .map(|d| json!([d.adp(), d.ado()]))
+                    .collect(),
+            ),
+        );
         let mut dj = Obj::new();
         let g = put_phase(&mut dj, "dc_", p);
         for (k, v) in dj {
